@@ -4,6 +4,7 @@ mod cli;
 mod conn;
 mod corpus;
 mod csvs;
+mod evalsplit;
 mod extract;
 mod trainer;
 mod trainnew;
@@ -556,6 +557,11 @@ fn main() {
             let seed: u64 = args[2].parse().unwrap();
             let n: usize = args[3].parse().unwrap();
             threads::run(seed, n, &mut out);
+        }
+        "evalsplit" => {
+            let seed: u64 = args[2].parse().unwrap();
+            let n: usize = args[3].parse().unwrap();
+            evalsplit::run(seed, n, &mut out);
         }
         "replayfile" => {
             replay::run(&args[2], &mut out);
